@@ -1,7 +1,7 @@
 #!/bin/bash
 # Confirms a seeded change: demo passes on the unchanged tree; with the patch the tree builds, the
 # existing suite passes, and the demo fails. usage: confirm_seed.sh <seed-dir> [pkg-dir-for-the-demo, default .]
-d=$(readlink -f "$1"); dest=${2:-.}; pat="Seed|Demo"; [ "$dest" != "." ] && pat="."
+d=$(readlink -f "$1"); dest=${2:-.}; pat="Seed|Demo|TestC[0-9][0-9]|Forged|NoName|FallbackHost"; [ "$dest" != "." ] && pat="."; [ -n "$3" ] && pat="$3"
 wt=/tmp/cs-$$-$RANDOM
 export GOFLAGS=-mod=mod GOPROXY=off GOSUMDB=off GOTOOLCHAIN=local
 git -C /repo worktree add -q "$wt" HEAD || exit 2
